@@ -139,6 +139,19 @@ Theorem select_fresh : forall (e : nat) (ws : list nat) (el : bool) (w : world) 
 Proof. exact select_fresh_lemma. Qed.
 Print Assumptions select_fresh.
 
+(* GENERATIONS OF COPIES — a copy of a copy of ... a copy (tournament: elite = best.clone(), member = elite.clone();
+   any number of generations) has the same view as the original, for hook-free registries; and it is made of new cells *)
+Theorem clone_chain_faithful : forall (idxs : list (option N)) (s : store) (a : agent),
+  r_hooks (a_reg a) = [] -> Forall (fun l => l < s_next s) (agent_locs a) ->
+  abs (fst (clone_chain idxs s a)) (snd (clone_chain idxs s a)) = abs s a.
+Proof. exact clone_chain_faithful_lemma. Qed.
+Print Assumptions clone_chain_faithful.
+
+Theorem clone_chain_fresh : forall (idxs : list (option N)) (s : store) (a : agent) (l : loc),
+  idxs <> [] -> In l (agent_locs (snd (clone_chain idxs s a))) -> s_next s <= l.
+Proof. exact clone_chain_fresh_lemma. Qed.
+Print Assumptions clone_chain_fresh.
+
 (* REFUTED — the pinned behaviour (optimizer.load_state_dict of the parent's state dict without a deep
    copy) breaks separation: parent and copy share the optimizer state tensors *)
 Theorem clone_aliasing_refuted :
@@ -167,3 +180,27 @@ Example history_separated :
               Mutate 1 MArch [mkShape 1 9 2 1 0 0 1 0] 5; Learn 2 [(3, 4%nat)]; Select 1 [0%nat] true] in
   sep_b (run world0 ops) = true /\ length (w_pop (run world0 ops)) = 3%nat /\ WF (run world0 ops).
 Proof. split; [vm_compute; reflexivity|split; [vm_compute; reflexivity|]]. apply run_WF. exact world0_separated. Qed.
+
+
+(* non-vacuity of the round-3 theorems: a hook-free agent (registry without hooks) of a separated world, three
+   generations of copies: same view, and the last copy lies entirely above the old allocation pointer *)
+Definition agent_nohook : agent :=
+  mkAgent 0 0 [(1, 7); (2, 7)] [mkOpt 3 (1#1000)%Q [0; 1]] [(4, (1#1000)%Q)]
+          (mkReg [mkGroup 1 [2] true] [mkOptCfg 3 [1] 4] [] [4] false) (a_blocks (agent0 0 0)).
+Example clone_chain_nonvacuous :
+  r_hooks (a_reg agent_nohook) = [] /\
+  Forall (fun l => l < s_next (w_store world0)) (agent_locs agent_nohook) /\
+  abs (fst (clone_chain [None; Some 5; None] (w_store world0) agent_nohook))
+      (snd (clone_chain [None; Some 5; None] (w_store world0) agent_nohook)) = abs (w_store world0) agent_nohook /\
+  forallb (fun l => N.leb (s_next (w_store world0)) l)
+          (agent_locs (snd (clone_chain [None; Some 5; None] (w_store world0) agent_nohook))) = true.
+Proof.
+  split; [reflexivity|]. split; [repeat constructor|]. split.
+  - apply clone_chain_faithful; [reflexivity|repeat constructor].
+  - vm_compute. reflexivity.
+Qed.
+(* ... and a tournament on the example population returns only new cells *)
+Example select_fresh_nonvacuous :
+  forallb (fun a => forallb (fun l => N.leb (s_next (w_store world0)) l) (agent_locs a))
+          (w_pop (select 1 [0%nat; 1%nat] true world0)) = true /\ length (w_pop (select 1 [0%nat; 1%nat] true world0)) = 4%nat.
+Proof. split; vm_compute; reflexivity. Qed.
